@@ -1,4 +1,5 @@
 import Rcgen.Proofs.CrlDecode
+import Rcgen.Theorems.C02
 /-
   C08 — a CRL revokes exactly the listed certificates and says what was asked.
   This file: the refusal rules, the shape of the list, and `crl_decodes_to_request`: the full
@@ -154,6 +155,49 @@ example : crlIssuerNotSigner exCrl.issuer = false := by decide
 example : crlInvalid exCrl.p exCrl.issuer = none := by decide +kernel
 example : crlPanics exCrl.p exCrl.issuer = false := by decide +kernel
 example : (encode (tbsCertList exCrl.H exCrl.p exCrl.issuer)).length < 256 ^ 126 := by decide +kernel
+
+/-- **revoked if and only if listed.**  A revocation checker reading the decoded list reports
+    a serial number as revoked exactly when one of the listed certificates has it — as a number:
+    leading zero octets of the caller's serial bytes do not matter, on either side -/
+theorem revoked_iff_listed (i : Spec.CrlInputs)
+    (hinv : crlInvalid i.p i.issuer = none)
+    (hnp : crlPanics i.p i.issuer = false)
+    (hsize : (encode (tbsCertList i.H i.p i.issuer)).length < 256 ^ 126) (n : Nat) :
+    ∃ c, Spec.decodeTbsCrl (encode (tbsCertList i.H i.p i.issuer)) = some c ∧
+      (Spec.isRevoked c n = true ↔ ∃ r ∈ i.p.revoked, ofBe r.serial = n) := by
+  refine ⟨_, crl_decodes_to_record i hinv hnp hsize, ?_⟩
+  unfold Spec.isRevoked Proofs.CrlDecode.modelCrl
+  by_cases he : i.p.revoked.isEmpty = true
+  · have : i.p.revoked = [] := List.isEmpty_iff.1 he
+    simp [this]
+  · simp only [he, Bool.false_eq_true, if_false, Option.getD_some, List.any_map, List.any_eq_true,
+      Function.comp, Proofs.CrlDecode.modelEntry, beq_iff_eq]
+
+/-- **a certificate rcgen issued is revoked by a CRL rcgen issued exactly when its serial number
+    was listed**: the serial number an RFC 5280 reader finds in the certificate (C02) is revoked
+    according to the decoded CRL iff some listed serial denotes the same integer as the
+    certificate's -/
+theorem issued_certificate_revoked_iff_listed (i : Spec.CrlInputs) (ci : Spec.CertInputs)
+    (serial : Bytes) (hser : ci.p.serial = some serial)
+    (hinv : crlInvalid i.p i.issuer = none) (hnp : crlPanics i.p i.issuer = false)
+    (hsize : (encode (tbsCertList i.H i.p i.issuer)).length < 256 ^ 126)
+    (cinv : certInvalid ci.p ci.issuer = none) (cnp : certPanics ci.p ci.issuer = false)
+    (chc : ∀ e ∈ ci.p.customExts, e.oid ∉ C02.interpretedOids)
+    (csize : (encode (tbsCertificate ci.H ci.p ci.subject ci.issuer)).length < 256 ^ 126) :
+    ∃ crl cert, Spec.decodeTbsCrl (encode (tbsCertList i.H i.p i.issuer)) = some crl ∧
+      Spec.decodeTbsCert (encode (tbsCertificate ci.H ci.p ci.subject ci.issuer)) = some cert ∧
+      (Spec.isRevoked crl cert.serial = true ↔ ∃ r ∈ i.p.revoked, ofBe r.serial = ofBe serial) := by
+  obtain ⟨crl, hcrl, hiff⟩ := revoked_iff_listed i hinv hnp hsize (ofBe serial)
+  refine ⟨crl, _, hcrl, C02.cert_decodes_to_record ci cinv cnp chc csize, ?_⟩
+  have : (Proofs.CertDecode.modelTbs ci).serial = ofBe serial := by
+    simp [Proofs.CertDecode.modelTbs, Spec.reqSerial, hser]
+  rw [this]; exact hiff
+
+-- the example list revokes 1, 255 (given as 00 ff) and 3, and nothing else
+example : ∃ c, Spec.decodeTbsCrl (encode (tbsCertList exCrl.H exCrl.p exCrl.issuer)) = some c ∧
+    Spec.isRevoked c 255 = true ∧ Spec.isRevoked c 2 = false := by
+  refine ⟨_, crl_decodes_to_record exCrl (by decide +kernel) (by decide +kernel) (by decide +kernel), ?_, ?_⟩ <;>
+    decide +kernel
 
 /-! non-vacuity: thisUpdate = t+0.1 s, nextUpdate = t+0.9 s is refused -/
 example : crlNextUpdateInvalid
